@@ -121,7 +121,8 @@ def _workers(P, R):
 def _same_evaluator(P, R):
     par = P.one(PE + "::execute_rules_parallel")
     seq = P.one(PE + "::execute_rules_sequential")
-    bodies = {"parallel": [par] + P.closures_of(par), "sequential": [seq] + P.closures_of(seq)}
+    # worker closures may hand the per-rule work to a private helper (`process_chunk`, `run_single_rule`): splice it in
+    bodies = {"parallel": [P.inlined(x) for x in [par] + P.closures_of(par)], "sequential": [P.inlined(x) for x in [seq] + P.closures_of(seq)]}
     evals = {}
     for k, fs in bodies.items():
         es = set()
